@@ -60,4 +60,18 @@ XZLoads(lim, dict) == lim = 0 \/ dict <= lim
 \* ---- 6. LoadFile: descriptors ------------------------------------------------------
 \* handles = set of open handle ids; every open handle holds exactly one descriptor on its file
 Descriptors(base, open) == base + Cardinality(open)
+\* ---- 8. the reflection API outside its documents' use ------------------------------------------------------------
+\* what a call must end in: "error" (an error value, nothing written that matters), or "same" (no error, and the same
+\* result as the ordinary route named in the case).  Never a panic.
+ApiContract(c) ==
+    CASE c \in {"decode-nonpointer", "decode-into-int", "unmarshal-float-field", "unmarshal-nested-struct-field", "unmarshal-pointer-field",
+                "marshal-float-field", "marshal-nested-struct-field", "marshal-int", "convert-nonpointer", "convert-pointer-to-int",
+                "unpack-nonpointer"} -> "error"
+      [] c \in {"unpack-equals-unmarshal", "convert-equals-marshal", "encode-slice-equals-encode-each", "encode-pointer-to-slice",
+                "marshal-pointer-field"} -> "same"
+      [] c = "marshal-nil-pointer-field" -> "error-or-omitted"        \* a nil pointer has no text: an error, or the field left out
+ApiCases == {"decode-nonpointer", "decode-into-int", "unmarshal-float-field", "unmarshal-nested-struct-field", "unmarshal-pointer-field",
+             "marshal-float-field", "marshal-nested-struct-field", "marshal-int", "convert-nonpointer", "convert-pointer-to-int",
+             "unpack-nonpointer", "unpack-equals-unmarshal", "convert-equals-marshal", "encode-slice-equals-encode-each",
+             "encode-pointer-to-slice", "marshal-pointer-field", "marshal-nil-pointer-field"}
 =============================================================================
